@@ -55,11 +55,12 @@ PROPS = {
               "{1,2,17} (quick) / {1,2,17,1024,1030} (thorough) x 2 pre-rolls x 2 directions + every permutation, deletion subset and single duplication of <=4 (quick) / <=5 (thorough) frames. "
               "Non-trivial: the altered stream differs from the original. Distinct by full scenario hash."),
         assumptions=["the receiver stops reading after the first error (hc's Connection closes the socket)"],
-        essential_classes=["flip:length", "flip:body", "flip:tag", "truncate", "delete", "dup", "swap", "replay-old", "reflect", "splice", "outcome:detected", "outcome:prefix-at-frame-boundary", "counters>0", "sender:hc"],
+        essential_classes=["flip:length", "flip:body", "flip:tag", "truncate", "delete", "dup", "swap", "replay-old", "reflect", "splice", "outcome:detected", "outcome:prefix-at-frame-boundary", "counters>0", "sender:hc", "outcome:conn:detected", "outcome:conn:prefix-at-frame-boundary"],
         jobs=[
             dict(test="TestC05BitFlips", kind="plain", shards={Q: 2, T: 16}),
             dict(test="TestC05FramePerms", kind="plain", shards={Q: 2, T: 4}),
-            dict(test="TestC05Prop", kind="rapid", checks={Q: 1500, T: 40000}, shards=12),
+            dict(test="TestC05Prop", kind="rapid", checks={Q: 1500, T: 40000}, shards=10),
+            dict(test="TestC05Conn", kind="rapid", checks={Q: 800, T: 20000}, shards=6),
         ],
     ),
     "C17": dict(
@@ -169,6 +170,23 @@ PROPS = {
             dict(test="TestC07Regress", kind="plain"),
             dict(test="TestC07Splits", kind="plain", shards={Q: 4, T: 16}),
             dict(test="TestC07Prop", kind="rapid", checks={Q: 1500, T: 50000}, shards=12),
+        ],
+    ),
+    "C08": dict(
+        pkg="c08", level="exploration",
+        technique="schedule exploration: rapid-generated interleavings of 2..5 writers driven through harness-owned schedule points (hooks in the write path + gated socket write), free-running stress on all cores, and a -race build; peer-side opener as oracle",
+        level_text=("The harness owns the schedule: writers park on entering Write, before sealing, after sealing and inside the socket write; a rapid-drawn choice list decides which parked goroutine runs next. The captured socket bytes, in completion order, must open under the peer's "
+                    "opener with counters 0,1,2,... and parse into each writer's payload exactly once and contiguous. A hook-free mode runs 2..8 writers plus keep-alive ticks freely on all cores; thorough repeats it under the race detector."),
+        level_note="Trusted: refctl opener, the scheduler. Only the four named points are owned, not every instruction boundary; the settle period (1.5 ms) affects which schedules are reached, never the verdict.",
+        rule=("owned mode: 2..5 writers with payloads of 1..4000 bytes (one to four frames) and a choice list of 4n..6n entries; free mode: repetitions with 2..8 writers x 3..7 writes each, every second one with a keep-alive ticker. "
+              "Non-trivial: at least 2 writers had entered the write path before the first of them completed. Distinct by (payload lengths, choice list)."),
+        assumptions=["writers use Connection.Write (the path of responses, notifications and keep-alives)"],
+        essential_classes=["writers=2", "writers=5", "multi-frame-payload", "free:keep-alive", "regress"],
+        jobs=[
+            dict(test="TestC08Regress", kind="plain"),
+            dict(test="TestC08Owned", kind="rapid", checks={Q: 40, T: 1200}, shards=16),
+            dict(test="TestC08Free", kind="plain", shards={Q: 4, T: 16}, env={"VERIF_C08_REPS": {Q: 40, T: 400}}),
+            dict(test="TestC08Free", kind="plain", race=True, tiers=[T], shards=4, env={"VERIF_C08_REPS": {T: 300}}),
         ],
     ),
 }
